@@ -47,6 +47,8 @@ THEOREMS = [
     'C04_family_cells',
 ]
 MEMBERS = [
+    'C04_tr_card_star_is_cos', 'C04_normalize_transform_abbrev',
+    'C04_tr_card_star_abbrev', 'C04_plane_offset_perturbation',
     'C04_quad_congruence',
     'C04_frame_transform_gq',
     'C04_frame_transform_plane',
@@ -96,31 +98,40 @@ MEMBERS = [
     'C04_trcl_cell_t4',
 ]
 TRUSTED = [
-    'hand-written model coq/C04/Model.v (modelled, tied by execution only)',
+    'hand-written model coq/C04/Model.v: tied by execution on every run (20 '
+    'ties, branch taken exactly, numbers at 1e-9), not verified against the '
+    'Python source',
     'decimal text -> binary64 and expand_data_card (J, R, M): not modelled; '
-    'the harness hands the expanded entries to the model',
+    'the harness hands the expanded entries to the model (C14)',
     'IEEE rounding, numpy/BLAS summation order in transformation_quad and '
-    'rotation_from_vectors: absorbed by the 1e-9 scaled tolerance',
+    'rotation_from_vectors: absorbed by the 1e-9 scaled tolerance; theorems '
+    'are over the reals',
     'cos/sin/atan at binary64 are series in Base/Scalar.v (|err| < 1e-13)',
     'T4 and MCNP surface semantics in coq/C04/Spec.v are read from DESIGN '
     'Appendix A/B; the sweep oracles mcnpref.py / t4eval.py are independent '
     'Python readings of the same appendix',
+    'cell references inside a moved cell (cell_transform recursion, caches): '
+    "outside C04's model, proved over C05's model instantiated with C04's "
+    'transformation (C05_cell_transform_den_linked)',
     'harness: generators, impl.T4File reader, PEG shim replacing TatSu',
 ]
 ASSUMPTIONS = [
-    'theorems are about exact real arithmetic; matrices are orthonormal '
-    '(B B^T = I and B^T B = I) and surface axes are unit vectors',
-    'adjust_matrix fixpoint: entries are 0 or at least 1e-10 in magnitude '
-    '(the code zeroes smaller entries)',
-    'torus: the moved axis is exactly +-a coordinate axis or not within '
-    'numpy.allclose of one (the code snaps nearly aligned axes)',
-    'one-sheet cone: the moved axis is not anti-parallel to a coordinate axis '
-    '(refuted otherwise: class cone_sheet_axis_antialigned)',
-    'translation entries of a TR card are numbers (no J placeholder there); '
-    'cone sheet parameter is -1, 0 or +1',
-    'raw-string TRCL applied to a surface is modelled as TypeError; the '
-    'string-concatenation behaviour for integer frames is not modelled '
-    '(covered by the deck sweep only)',
+    'rows of B orthonormal (columns follow: cols_orthonormal); exact for a '
+    'card whose matrix is exactly orthonormal with no entry strictly between '
+    '0 and 1e-10 (C04_normalize_transform_exact), otherwise within 1e-10 '
+    'entrywise with explicit bounds on the moved frame and the plane offset '
+    '(C04_normalize_transform_perturbation, C04_plane_offset_perturbation); '
+    'no bound is proved for QUAD coefficients',
+    'surface axes are unit vectors (MIP frames), cone sheet parameter is '
+    'absent, 0, +1 or -1, quadrics have ten coefficients',
+    'torus: exact statement for every unit axis in '
+    'C04_frame_transform_torus_total; inside numpy.allclose of a coordinate '
+    'axis the code writes the torus about that axis (angle < 1.5e-8 rad)',
+    'compose_transform is the MCNP composition only under the condition of '
+    'C04_compose_mcnp_iff; both call sites satisfy it (checked on every run); '
+    'a TRCL chain of two rotations is never built by the parser',
+    'dictionary entries: side -1 only on single-surface parts (true of '
+    'every macrobody: such facets are planes)',
 ]
 HEADER = ('From Coq Require Import List NArith ZArith Bool PrimFloat.\n'
           'From T4V Require Import Base.Scalar C04.Vec C04.Model C04.Exec.\n')
